@@ -8,6 +8,23 @@
 mod cert {
     include!("/repo/varlink-certification/src/main.rs");
 
+    /// the clock the certification service sees under cfg(varlink_rust_verif)
+    pub mod verif_clock {
+        use std::time::Duration;
+        #[derive(Clone, Copy, Debug, PartialEq)]
+        pub struct Instant {
+            ns: u64,
+        }
+        impl Instant {
+            pub fn now() -> Instant {
+                Instant { ns: crate::qsim::clock_ns() }
+            }
+            pub fn elapsed(&self) -> Duration {
+                Duration::from_nanos(crate::qsim::clock_ns().saturating_sub(self.ns))
+            }
+        }
+    }
+
     // glue living inside the module so that the private items stay untouched in /repo
     pub fn client(connection: Arc<RwLock<varlink::Connection>>) -> std::result::Result<(), String> {
         run_client(connection).map_err(|e| e.to_string())
@@ -28,6 +45,27 @@ use crate::props::{Plan, Space};
 use crate::report::{RunResult, Tier};
 use crate::rng::{Fnv, Rng};
 use crate::sched::{run_sim, wait_quiescent, CtlRef, SchedCfg, SimEnd};
+
+thread_local! {
+    /// (simulated network whose clock is read, coarse?, reads so far) for the run on this OS thread
+    static CLOCK: std::cell::RefCell<Option<(NetRef, bool, u64)>> = const { std::cell::RefCell::new(None) };
+}
+
+/// simulated monotonic clock in nanoseconds: simulated milliseconds plus, unless the run injects a
+/// coarse clock, one nanosecond per read (two reads never return the same instant)
+pub fn clock_ns() -> u64 {
+    CLOCK.with(|c| {
+        let mut g = c.borrow_mut();
+        match g.as_mut() {
+            Some((net, coarse, reads)) => {
+                *reads += 1;
+                let ms = net.now_mirror.load(std::sync::atomic::Ordering::SeqCst);
+                ms * 1_000_000 + if *coarse { 0 } else { *reads }
+            }
+            None => 0,
+        }
+    })
+}
 
 pub const STEPS: [&str; 13] = [
     "Start", "Test01", "Test02", "Test03", "Test04", "Test05", "Test06", "Test07", "Test08", "Test09", "Test10", "Test11", "End",
@@ -62,6 +100,9 @@ pub struct QCase {
     /// the raw clients poll by yielding (interleaving with the canonical clients) instead of
     /// waiting for quiescence after every request
     pub interleave: bool,
+    /// fault: the service's monotonic clock has millisecond granularity (two reads may be equal)
+    #[serde(default)]
+    pub coarse_clock: bool,
     pub sched: SchedCfg,
 }
 
@@ -302,6 +343,7 @@ pub fn run_q(case: &QCase) -> (SimEnd, crate::sched::SimStats, QObs) {
     let c = case.clone();
     let (end, stats) = run_sim(&case.sched, move |ctl| {
         let net = new_net();
+        CLOCK.with(|k| *k.borrow_mut() = Some((net.clone(), c.coarse_clock, 0)));
         varlink::verif::register("q", Arc::new(SimListenerImpl { net: net.clone() }));
         let srv_out = out2.clone();
         let server = shuttle::thread::spawn(move || {
@@ -400,6 +442,7 @@ pub fn run_q(case: &QCase) -> (SimEnd, crate::sched::SimStats, QObs) {
             }
         }
         varlink::verif::unregister("q");
+        CLOCK.with(|k| *k.borrow_mut() = None);
         let w = net.lock();
         let mut o = out2.lock().unwrap();
         // client ids issued on any connection (Start replies)
@@ -513,7 +556,10 @@ pub fn eval_q(case: &QCase) -> RunResult {
         violations,
         sig: sig.0,
         nontrivial: case.canonical + case.deviants.len() >= 1,
-        faults: vec![("deviating_request_sent", o.dev.iter().filter(|d| d.reached).count() as u64)],
+        faults: vec![
+            ("deviating_request_sent", o.dev.iter().filter(|d| d.reached).count() as u64),
+            ("coarse_monotonic_clock", case.coarse_clock as u64),
+        ],
         probes: vec![
             ("deviation_answered_with_error", errors),
             ("deviation_unanswered", silent),
@@ -679,7 +725,7 @@ pub fn deviation_space(canon_params: &[Value]) -> Vec<Deviation> {
 
 pub fn c19_plan(tier: Tier) -> Plan {
     // one raw canonical walk against the real service yields the canonical parameters of every step
-    let probe = QCase { canonical: 0, deviants: vec![], interleave: false, sched: SchedCfg::uniform(1) };
+    let probe = QCase { canonical: 0, deviants: vec![], interleave: false, coarse_clock: false, sched: SchedCfg::uniform(1) };
     let (_, _, o) = run_q(&probe);
     let canon = o.canon_params.clone();
     let devs = deviation_space(&canon);
@@ -698,6 +744,7 @@ pub fn c19_plan(tier: Tier) -> Plan {
                     canonical: if (idx / seeds) % 5 == 0 { 1 } else { 0 },
                     deviants: vec![d],
                     interleave: idx % 2 == 1,
+                    coarse_clock: false,
                     sched: SchedCfg::random(&mut rng, 1),
                 })
             }),
@@ -712,7 +759,7 @@ pub fn c19_plan(tier: Tier) -> Plan {
             gen: Box::new(move |idx, seed| {
                 let mut rng = Rng::new(seed);
                 let k = if idx < 16 { idx as usize + 1 } else if rng.chance(1, 6) { rng.range(9, 16) as usize } else { rng.range(2, 8) as usize };
-                Case::Q(QCase { canonical: k, deviants: vec![], interleave: false, sched: SchedCfg::random(&mut rng, 1) })
+                Case::Q(QCase { canonical: k, deviants: vec![], interleave: false, coarse_clock: false, sched: SchedCfg::random(&mut rng, 1) })
             }),
         });
     }
@@ -728,7 +775,21 @@ pub fn c19_plan(tier: Tier) -> Plan {
                 let k = rng.range(1, 6) as usize;
                 let nd = rng.range(1, 3) as usize;
                 let deviants = (0..nd).map(|_| rng.pick(&devs).clone()).collect();
-                Case::Q(QCase { canonical: k, deviants, interleave: rng.chance(2, 3), sched: SchedCfg::random(&mut rng, 1) })
+                Case::Q(QCase { canonical: k, deviants, interleave: rng.chance(2, 3), coarse_clock: false, sched: SchedCfg::random(&mut rng, 1) })
+            }),
+        });
+    }
+    {
+        // fault-injecting configuration: a monotonic clock with millisecond granularity
+        let n = if tier == Tier::Quick { 200 } else { 6_000 };
+        spaces.push(Space {
+            name: "Q.canonical.coarse-clock",
+            size: n,
+            exhaustive: false,
+            gen: Box::new(move |_idx, seed| {
+                let mut rng = Rng::new(seed);
+                let k = rng.range(2, 6) as usize;
+                Case::Q(QCase { canonical: k, deviants: vec![], interleave: false, coarse_clock: true, sched: SchedCfg::random(&mut rng, 1) })
             }),
         });
     }
@@ -753,7 +814,7 @@ pub fn c19_plan(tier: Tier) -> Plan {
         stub: vec![
             "sockets, select, threads (as in scenario L)",
             "deviating clients (raw JSON written by the environment task)",
-            "std::time::Instant is the REAL monotonic clock here: client ids differ between runs and are excluded from the event-log hash",
+            "std::time::Instant of the certification service (simulated monotonic clock: simulated ms + 1 ns per read)",
         ],
         assumptions: vec![
             "an extra unknown member, or a JSON number written differently but equal as the typed value, is not a deviation".into(),
